@@ -154,3 +154,17 @@ Example C01_example_conditional_and_or :
   in_c01_scope src = true /\
   agrees src [(ex_prims 10 50, 1500); (ex_prims 0 40, 2500); (ex_prims 9 60, 2600)] = Some true.
 Proof. vm_compute. split; reflexivity. Qed.
+
+(* a bind whose target is itself a bind (the compiler accepts it; the typing discipline gives it the
+   left-to-right meaning: the inner bind, then the value, then the store): inside the theorem *)
+Example C01_example_bind_into_a_bind :
+  let src := lit "(def (Report (volatile a 0) (b 1)) (c 100))
+      (when true (bind (bind Report.a 7) (+ Report.a 1)) (:= Report.b (:= (:= c 5) (+ c Report.a))) (report))" in
+  in_c01_scope src = true /\
+  agrees src [(ex_prims 1 1, 1500); (ex_prims 2 2, 2500)] = Some true /\
+  (* the first report carries Report.a = 8 (7, then 7 + 1) and Report.b = 13 (c := 5, then 5 + 8) *)
+  match load src 77 with
+  | Some (d, p, _, sc) => map o_report (src_run sc p true (mkS [] 1000) [(ex_prims 1 1, 1500)]) = [[[8; 13]]]
+  | None => False
+  end.
+Proof. vm_compute. repeat split; reflexivity. Qed.
